@@ -859,6 +859,7 @@ func runC06(seed int64, n int, tier string, outDir string) (*Report, error) {
 		_ = l
 		addFive(lists, k%2 == 0, k%3 == 0, fmt.Sprintf("odd lists from %d, five positions", k))
 	}
+	c06GobCases(rep, g, outDir, n/2+40, oddLists) // b43: the gob clause against the gob wire model (c06gob.go)
 	for _, w := range []*CaseWriter{cwN, cwE, cwD, cwU, cw5} {
 		if err := rep.AddCases(w); err != nil {
 			return nil, err
